@@ -459,3 +459,39 @@ Definition run_universe (inp : sexp) : option sexp :=
                 | None => etag "out-of-fuel" [] end)
       | _, _ => None end
   | _ => None end.
+
+(* C20: the predicates on every Types entry of the built universe *)
+Definition e_optbool (b : option bool) : sexp := match b with Some x => ebool x | None => etag "out-of-fuel" [] end.
+Definition run_preds (inp : sexp) : option sexp :=
+  match inp with
+  | L [A [v]; nodes; pkgs] =>
+      match dlist (dpair dnum (dpair dstr d_shape)) nodes, dlist d_gpkg pkgs with
+      | Some nodes, Some pkgs =>
+          let fuel := 2 * length nodes + 20 in
+          Some (match build (N.eqb v 2) nodes fuel pkgs with
+                | Some w =>
+                    let u := w_u w in
+                    elist (fun kn => L [A (fst (fst kn)); A (snd (fst kn)); ebool (is_primitive u (snd kn));
+                                        e_optbool (is_assignable fuel u (snd kn)); e_optbool (is_anonymous_struct fuel u (snd kn))])
+                          (map snd (sort_by_key (map (fun kn => (fst (fst kn) ++ [0%N] ++ snd (fst kn), kn)) (tkeys u))))
+                | None => etag "out-of-fuel" [] end)
+      | _, _ => None end
+  | _ => None end.
+
+(* C06: a sequence of Universe.Type lookups after loading: the object each returns *)
+Definition run_lookups (inp : sexp) : option sexp :=
+  match inp with
+  | L [L [A [v]; nodes; pkgs]; lks] =>
+      match dlist (dpair dnum (dpair dstr d_shape)) nodes, dlist d_gpkg pkgs, dlist (dpair dstr dstr) lks with
+      | Some nodes, Some pkgs, Some lks =>
+          let fuel := 2 * length nodes + 20 in
+          Some (match build (N.eqb v 2) nodes fuel pkgs with
+                | Some w =>
+                    let '(_, out) := fold_left (fun acc k => let '(u, out) := acc in
+                                                  let '(u', o) := get_or_create (N.eqb v 2) u k in
+                                                  (u', out ++ [L [A (fst o); A (snd o); A (kind_of u' o)]]))
+                                               lks (w_u w, []) in
+                    L out
+                | None => etag "out-of-fuel" [] end)
+      | _, _, _ => None end
+  | _ => None end.
